@@ -1344,6 +1344,13 @@ func (s *Netceptor) SendMessageWithHopsToLive(fromService string, toNode string,
 	if strings.EqualFold(toNode, "localhost") {
 		toNode = s.nodeID
 	}
+	if toNode == s.nodeID {
+		// A datagram for a listener on this node is handed over as it is and copied out by the
+		// listener's ReadFrom after this call has returned, when the caller may already have
+		// re-used its buffer: keep a copy.  (Datagrams that leave the node are encoded into a
+		// new buffer before this call returns.)
+		data = append([]byte(nil), data...)
+	}
 	md := &MessageData{
 		FromNode:    s.nodeID,
 		FromService: fromService,
